@@ -96,6 +96,25 @@ def run(ctx):
         if got != want:
             prop_bad.append({"lookup": {"by_key": c[0], "name": c[1], "key": c[2], "version": c[3], "type": c[4]},
                              "impl": got, "expected_from_package_walk": want})
+    # cold start: fresh interpreters in which several threads resolve the same entries before any schema module is loaded
+    import json as _json
+    import subprocess as _sp
+    ents = sorted(truth)
+    r.shuffle(ents)
+    n_cold = 0
+    for rep in range(2 if ctx["tier"] == "quick" else 12):
+        chunk = ents[rep * 60:(rep + 1) * 60]
+        spec = {"entries": [[a, keys.get(a), v, t] for a, v, t in chunk], "threads": 4}
+        p = _sp.run([common.PY, str(common.VERIF / "harness" / "c09_worker.py")], input=_json.dumps(spec), capture_output=True,
+                    text=True, env=common.child_env(), timeout=600)
+        n_cold += 4 * len(chunk)
+        if p.returncode != 0:
+            prop_bad.append({"cold_start_probe": "worker crashed", "detail": p.stderr[-400:]})
+        else:
+            for f in _json.loads(p.stdout)[:5]:
+                prop_bad.append({"lookup": {"name": f["entry"][0], "key": f["entry"][1], "version": f["entry"][2], "type": f["entry"][3]},
+                                 "impl": f["what"], "expected_from_package_walk": "the entry's own module and class",
+                                 "circumstance": "fresh interpreter, 4 unsynchronised threads resolving the same entries"})
     # key <-> name one to one, every module reachable
     from kio.schema.index import api_key_map
     if len(set(api_key_map.values())) != len(api_key_map) or dict(api_key_map) != {k: a for a, k in keys.items()}:
@@ -135,7 +154,7 @@ def run(ctx):
         "rule": "every (api, version, type) of the package x every entity type, version +-1, by key and key +-1, plus "
                 "seeded random keys/names/versions; distinct lookups counted; all index entries are covered exhaustively",
         "traces_validated_against_impl": len(cases), "outcome_distribution": kinds,
-        "index_entries": len(truth), "api_keys": len(keys),
+        "index_entries": len(truth), "api_keys": len(keys), "cold_start_concurrent_lookups": n_cold,
         "samples": [dict(by_key=c[0], name=c[1], key=c[2], version=c[3], type=c[4], impl=g) for c, g in list(zip(cases, impl_res))[:3] + list(zip(cases, impl_res))[-2:]],
         "instance_theorem": "c09_shipped : c09_ok shipped n_schema_classes = true  [vm_compute]",
         "correspondence_disagreements": len(corr_bad), "implementation_evaluation_violations": len(prop_bad),
